@@ -728,7 +728,7 @@ with builtin (fuel : nat) (name : string) (args : list term) (k : cont) (e : env
                       else match find_proc (s_db st) nm (Z.to_nat ar) with
                            | Some p => if pr_dynamic p then apply_cont f k e (set_db st (remove_proc (s_db st) nm (Z.to_nat ar)))
                                        else (PErr (perm_err "modify" "static_procedure" (pi_t nm ar)), st)
-                           | None => (PErr (perm_err "modify" "static_procedure" (pi_t nm ar)), st)
+                           | None => apply_cont f k e st   (* no such procedure: nothing to abolish *)
                            end
                   | r => (PErr (type_err "integer" (walk e r)), st)
                   end
